@@ -222,8 +222,14 @@ func confirmAndValidate(n *Native, res *HarnessResult, tier string, seed int64) 
 	// concolic fallback: paths the engine could not encode to the end are replayed natively on a model of the path
 	// condition up to that point (draws beyond it take default values); a failing native run is a real counterexample
 	nUns := len(res.Unsupported)
-	if nUns > 200 {
-		nUns = 200
+	// (when nothing could be encoded to the end — a change put an un-modelled library call on every path — the native
+	// replays are all there is: many more of them are run, the drawn decisions of each path being part of its witness)
+	capUns := 200
+	if res.Outcomes["ok"] == 0 {
+		capUns = 1500
+	}
+	if nUns > capUns {
+		nUns = capUns
 	}
 	unsFrom := id
 	// per unsupported path: one completion with default values and several pseudo-random completions
